@@ -198,6 +198,30 @@ fn run(case: &Case, cx: &mut Cx) -> CaseResult {
             }
         }
     }
+    // Two errors in a row: the operation, and whatever the code does next about it (a retry,
+    // a clean-up, the next file), for every write of the trace and every pair of kinds.
+    let writes: Vec<&Logged> = trace.iter().filter(|l| l.key.verb == V::Write).collect();
+    let writes = if cx.tier == Tier::Quick { scen::thin(&writes, 8) } else { scen::thin(&writes, 40) };
+    for l in writes {
+        for k1 in EK::ALL {
+            for k2 in EK::ALL {
+                let m: BTreeMap<usize, EK> = [(l.index, k1), (l.index + 1, k2)].into_iter().collect();
+                let inner = json!({"multi": m.iter().map(|(i, k)| (*i, *k)).collect::<Vec<_>>()});
+                if let Some(o) = &only {
+                    if *o != inner {
+                        continue;
+                    }
+                }
+                crate::engine::heartbeat();
+                let res = check_plan(&base, sc, cx, Plan::FailAtIndices(m), &mut n);
+                evals += 1;
+                nontrivial += 1;
+                if let Err(f) = res {
+                    cx.inner_failure(f.with_inner(inner))?;
+                }
+            }
+        }
+    }
     for plan in &case.multi {
         let m: BTreeMap<usize, EK> = plan
             .iter()
@@ -236,7 +260,7 @@ fn enumerate(tier: Tier, idx: u32, of: u32, cx: &mut Cx) -> CaseResult {
         return Ok(());
     }
     let (opts, tree) = crate::probes::many_hunks_tree(10_012);
-    let sc = Scenario { initial: tree, prefix: vec![], edits: vec![], opts, id_spread: 1 };
+    let sc = Scenario { initial: tree, prefix: vec![], edits: vec![], opts, id_spread: 1, headless_band: 0 };
     let sub = cx.dir("many-hunks");
     std::fs::create_dir_all(sub.join("r")).unwrap();
     let cx2 = crate::engine::sub_cx(cx, sub.clone());
